@@ -294,6 +294,44 @@ def build(tier="quick", seed=0):
         name = f"C02.pack[timestamp, {nm}]"
         pack.add(Obligation(name, lambda tier, name=name, d=d: prove_paths(name, lambda: (pack_with_fresh_packer(it, pk, d).tree, dt_tree(d)), judge_tree), replay=lambda w: {"call": "c02_golden", "args": {}}, functions=FU, mode="representative timestamps (finite case analysis)"))
 
+    def th_pack_descriptor_alias():
+        # a definition is written with the type names it was declared with (the alias spellings are whitelisted names of their own)
+        D = it.call(RD, ["c02/alias", [("wstring", "w"), ("string", "s"), ("net.IPAddress", "ip"), ("wstring[]", "wl")]], {})
+        got = pack_with_fresh_packer(it, pk, D)
+        return got.tree, W.descriptor_tree(blob, "c02/alias", [("wstring", "w"), ("string", "s"), ("net.IPAddress", "ip"), ("wstring[]", "wl")])
+
+    pack.add(Obligation("C02.pack[descriptor declared with alias type names]", lambda tier: prove_paths("C02.pack[descriptor declared with alias type names]", th_pack_descriptor_alias, judge_tree), replay=lambda w: {"call": "c02_descriptor_alias", "args": {}}, functions=FU))
+
+    def th_grouped_same_name():
+        # a grouped record whose member type has the NAME of a type written before but other fields: its definition is in the stream before the grouped frame
+        A = it.call(RD, ["c02/m", [("varint", "n")]], {})
+        A2 = it.call(RD, ["c02/m", [("string", "s")]], {})
+        fp = AbsFile(it, mode="wb")
+        w = it.call(st.g["RecordStreamWriter"], [fp], {})
+        it.call(it.getattr_(w, "write"), [it.call(A, [], {"n": SInt(x)})], {})
+        it.call(it.getattr_(w, "write"), [it.call(GR, ["c02/g", [it.call(A2, [], {"s": "v"}), it.call(A, [], {"n": 1})]], {})], {})
+        known, problems = set(), []
+        for body in fp.content()[3::2]:
+            t = getattr(body, "tree", None)
+            if t is None or t[0] != "ext" or not isinstance(t[2], MPBytes):
+                problems.append(f"not a frame of the format: {body!r}")
+                continue
+            inner = t[2].tree[1]
+            sub = it.unbase(inner[0][1])
+            pl = lambda q: it.unbase(q[1]) if q[0] == "leaf" else [pl(e) for e in q[1]]
+            if sub == 2:
+                nm_, fields_ = pl(inner[1][1][0]), tuple(tuple(f) for f in pl(inner[1][1][1]))
+                known.add((nm_, W.descriptor_hash(nm_, fields_)))
+            elif sub == 0x12:
+                for m_ in inner[1][1][1][1]:
+                    ident_ = tuple(pl(m_[1][0]))
+                    if ident_ not in known:
+                        problems.append(f"the grouped frame names the member type {ident_!r} before its definition")
+        return problems
+
+    pack.add(Obligation("C02.frame[grouped record whose member type shares its name with a type written before]", lambda tier: prove_paths("C02.frame[grouped same name]", th_grouped_same_name, lambda p: (p.value == [], f"{p.value[:2]!r}") if p.kind != "raise" else (exc_name(p) in ("error",), f"raised {exc_text(p)}"), lambda m_, p: {}, allow_raise=None),
+                        replay=lambda w: {"call": "c02_grouped_same_name", "args": {}}, functions=FU))
+
     def th_pack_grouped():
         A = it.call(RD, ["c02/a", [("varint", "n")]], {})
         B = it.call(RD, ["c02/b", [("string", "s")]], {})
